@@ -78,3 +78,44 @@ def replay_rounding(r):
     kept = 0 in vocab
     want = (c >= m) if mode == "min" else (c <= m)
     return {"violation": kept != want, "detail": "n=%d c=%d bound=%d kept=%s expected=%s" % (n, c, m, kept, want)}
+
+
+def replay_ngram_stage2(r):
+    from vectorizers import NgramVectorizer
+    inp, p = r["inputs"], r["params"]
+    docs = [[int(t) for t in d] for d in inp["docs"]]
+    prm = inp["params"]
+    nd = len(docs)
+    kw = {}
+    lo = dlo = dhi = None
+    if p["mode"] == "occ":
+        lo = int(prm["lo"]); kw["min_occurrences"] = lo
+    elif p["mode"] == "mindoc":
+        dlo = int(prm["dlo"]); kw["min_document_occurrences"] = dlo
+    elif p["mode"] == "maxdoc":
+        dhi = int(prm["dhi"]); kw["max_document_occurrences"] = dhi
+    else:
+        dlo = int(prm["dlo"]); kw["min_document_frequency"] = dlo / nd
+    try:
+        est = NgramVectorizer(ngram_size=2, ngram_behaviour="exact", **kw).fit(docs)
+    except (ValueError, ZeroDivisionError) as e:
+        return {"violation": False, "detail": "refused: %s" % e}
+    except Exception as e:
+        return {"violation": True, "detail": "%s: %s" % (type(e).__name__, e)}
+
+    def keep(items):
+        flat = [g for d in items for g in d]
+        out = set()
+        for t in set(flat):
+            c = flat.count(t)
+            dc = sum(1 for d in items if t in d)
+            if (lo is None or c >= lo) and (dlo is None or dc >= dlo) and (dhi is None or dc <= dhi):
+                out.add(t)
+        return out
+    kt = keep(docs)
+    kd = [[t for t in d if t in kt] for d in docs]
+    grams = [[(d[i], d[i + 1]) for i in range(len(d) - 1)] for d in kd]
+    want = keep(grams)
+    got = set(est.column_label_dictionary_.keys())
+    bad = got != want or sorted(est.column_label_dictionary_.values()) != list(range(len(got)))
+    return {"violation": bool(bad), "detail": "columns %s expected %s" % (sorted(got), sorted(want))}
